@@ -72,6 +72,26 @@ Theorem C04_delete_then_insert_restores : forall bf m l k v,
   oks (delete K V cmp veq layer m k v) (fun m1 =>
     oks (insert K V cmp veq layer m1 k v) (fun m2 => canon K V cmp layer bf m2 l /\ same_tree K V m m2)).
 Proof. exact (delete_then_insert_restores K V cmp veq layer cmp_eq cmp_antisym cmp_trans veq_eq layer_bound). Qed.
+
+(** order independence, one step: two Inserts of different keys, in either order, end in the same tree;
+    and at the level of listings updates of different keys commute (inserts, deletes, one of each) *)
+Theorem C04_inserts_commute : forall bf m l k1 v1 k2 v2,
+  canon K V cmp layer bf m l -> k1 <> k2 ->
+  oks (insert K V cmp veq layer m k1 v1) (fun a1 =>
+  oks (insert K V cmp veq layer a1 k2 v2) (fun a2 =>
+  oks (insert K V cmp veq layer m k2 v2) (fun b1 =>
+  oks (insert K V cmp veq layer b1 k1 v1) (fun b2 => same_tree K V a2 b2)))).
+Proof. exact (inserts_commute K V cmp veq layer cmp_eq cmp_antisym cmp_trans veq_eq layer_bound). Qed.
+
+Theorem C04_listing_inserts_commute : forall k1 v1 k2 v2 l, k1 <> k2 -> ssorted K V cmp l ->
+  upsert K V cmp k1 v1 (upsert K V cmp k2 v2 l) = upsert K V cmp k2 v2 (upsert K V cmp k1 v1 l).
+Proof. exact (upsert_upsert_comm K V cmp cmp_eq cmp_antisym cmp_trans). Qed.
+Theorem C04_listing_deletes_commute : forall k1 k2 l, ssorted K V cmp l ->
+  remove K V cmp k1 (remove K V cmp k2 l) = remove K V cmp k2 (remove K V cmp k1 l).
+Proof. exact (remove_remove_comm K V cmp cmp_eq cmp_antisym cmp_trans). Qed.
+Theorem C04_listing_insert_delete_commute : forall k1 v1 k2 l, k1 <> k2 -> ssorted K V cmp l ->
+  upsert K V cmp k1 v1 (remove K V cmp k2 l) = remove K V cmp k2 (upsert K V cmp k1 v1 l).
+Proof. exact (upsert_remove_comm K V cmp cmp_eq cmp_antisym cmp_trans). Qed.
 End UNDO.
 
 (** Any two supported histories (inserts, updates, deletes down to any size, clones, persists, in any
@@ -186,3 +206,7 @@ Print Assumptions C04_height_is_a_function_of_contents.
 Print Assumptions C04_unique_extensional.
 Print Assumptions C04_insert_then_delete_restores.
 Print Assumptions C04_delete_then_insert_restores.
+Print Assumptions C04_inserts_commute.
+Print Assumptions C04_listing_inserts_commute.
+Print Assumptions C04_listing_deletes_commute.
+Print Assumptions C04_listing_insert_delete_commute.
